@@ -69,6 +69,9 @@ class KnownMultiplierStringType(per.KnownMultiplierStringType):
         self.bits_per_character = integer_as_number_of_bits(
             len(permitted_alphabet) - 1)
 
+        if self.is_largest_character_in_field(permitted_alphabet):
+            self.permitted_alphabet = self.PERMITTED_ALPHABET
+
     def encode(self, data, encoder):
         if self.has_extension_marker:
             encoder.append_bit(0)
